@@ -8,6 +8,7 @@
 -/
 import HealSparse.Model.Randoms
 import HealSparse.Lemmas.Randoms
+import HealSparse.Lemmas.ApiRandoms
 namespace HS
 namespace C20
 
@@ -93,5 +94,325 @@ example : rejectionLoop 3 [[(1, false), (2, true)], [(3, true), (4, true), (5, t
   decide
 example : raWindow 360 [(-10, 10), (350, 370)] = (0, 360) := by decide
 
+/-! ## driver level: what the answer of `rand` pins down
+
+`rand NAME gen=fast n=… shift=… vp=… choice=… sub=…` and
+`rand NAME gen=uniform n=… batches=… T=… thr=… ivs=… rot=… [nowin=1]` are the two forms of the
+protocol line.  The harness (harness/real_rand.py) runs the REAL generator with a recording
+proxy around `np.random.RandomState(seed)` and writes the recorded draws into the line; the
+model answers with what the arithmetic / bookkeeping of healSparseRandoms.py must produce from
+those draws, and the two answers are compared literally.
+
+TRUSTED, by design (this property is partial):
+ * the recording proxy and the code that builds the line: `vp=` is `np.sort(m.valid_pixels)`
+   of the real map (NOT checked against the driver's map: `rand_ignores_world`), `choice=` /
+   `sub=` are the results of `rng.choice(valid_pixels, n)` / `rng.randint(0, 2**bit_shift, n)`,
+   a `1` in `batches=` means `get_values_pos(ra, dec, valid_mask=True)` of the real map, the
+   interval lists are `cov_phi ∓ extra_boundary / sin(theta)` recomputed from hpgeom and
+   scaled to integers;
+ * hpgeom (`pixel_to_angle` / `angle_to_pixel` are inverse on pixel centres; a point in a
+   sub-pixel lies in its parent; pixel extents are below `extra_boundary`);
+ * numpy's RNG (same seed ⇒ same draws: the harness runs the generator twice — `det`);
+ * statistics (`starved`: with `n ≥ 200·|V|`, `|V| ≤ 64` every valid pixel is hit).
+The constants `valid=1 det=1 starved=0` of the model's answer are the CLAIMS compared with
+what the harness measures on the real output; the theorems below say which part of the real
+computation the remaining tokens (`len`, `child`, `win`, `sel`) pin down. -/
+
+section driver
+open ApiRandoms
+
+/-- **complete characterisation**: the step leaves the world alone and answers `randAnswer a` -/
+theorem rand_step (w : World) (a : Args) : stepArgs w "rand" a = (w, randAnswer a) := by
+  rw [stepArgs_rand, opRand_eq]
+
+theorem rand_world_unchanged (w : World) (a : Args) : (stepArgs w "rand" a).1 = w := by
+  rw [rand_step]
+
+/-- the answer does not depend on the world — in particular not on the map named on the line:
+    the `vp=` token and the validity flags are TRUSTED, not checked -/
+theorem rand_ignores_world (w w' : World) (a : Args) :
+    (stepArgs w "rand" a).2 = (stepArgs w' "rand" a).2 := by
+  rw [rand_step, rand_step]
+
+/-- … nor on the positional arguments (the map name); the model's answer is a function of the
+    KEY=VALUE part of the line alone.  This is all the model can say about DETERMINISM: equal
+    recorded draws give equal answers; that equal SEEDS give equal draws is a property of
+    numpy's RandomState, measured by the harness (`det`), not provable here -/
+theorem rand_deterministic (a a' : Args) (h : a.kv = a'.kv) : randAnswer a = randAnswer a' := by
+  cases a; cases a'
+  simp only at h
+  subst h
+  rfl
+
+/-! ### (1) fast generator -/
+
+/-- the answer for `gen=fast`, from the parsed fields; anything unparsable is `bad-op` -/
+theorem rand_fast_answer (a : Args) (hg : (a.getD "gen" "uniform" == "fast") = true)
+    {vp ch sub : List Nat} {sh : Nat}
+    (h1 : parseNats (a.getD "vp" "_") = some vp) (h2 : parseNats (a.getD "choice" "_") = some ch)
+    (h3 : parseNats (a.getD "sub" "_") = some sub) (h4 : a.nat? "shift" = some sh) :
+    randAnswer a = fastAnswer ((a.nat? "n").getD 0) vp ch sub sh := by
+  unfold randAnswer
+  simp only [hg, if_true, h1, h2, h3, h4]
+
+/-- **the model refuses exactly the inadmissible draws**: the answer is `draws-out-of-range`
+    iff a chosen pixel is not one of the listed valid pixels, or a sub-pixel offset is not
+    below `2^shift`, or the number of draws is not `n` -/
+theorem rand_fast_refuses_iff (n : Nat) (vp ch sub : List Nat) (sh : Nat) :
+    fastAnswer n vp ch sub sh = "draws-out-of-range" ↔
+      ¬ ((∀ p ∈ ch, p ∈ vp) ∧ (∀ s ∈ sub, s < 2 ^ sh) ∧ ch.length = n ∧ sub.length = n) := by
+  rw [fastAnswer_refuses_iff, ← fastOk_iff]
+  cases fastOk n vp ch sub sh <;> simp
+
+/-- **what an accepted answer says**: `len = n`; the `child=` token lists `n` pixels; the
+    `i`-th is `(choice[i] << shift) + sub[i]`, it lies under `choice[i]`, and `choice[i]` is
+    one of the listed valid pixels — so EVERY printed child lies under a valid pixel -/
+theorem rand_fast_children (n : Nat) (vp ch sub : List Nat) (sh : Nat)
+    (h : fastAnswer n vp ch sub sh ≠ "draws-out-of-range") :
+    fastAnswer n vp ch sub sh =
+      s!"len={n} valid=1 det=1 starved=0 child={showNats (children sh ch sub)}" ∧
+    (children sh ch sub).length = n ∧
+    ∀ i, i < n → ∃ p s c, ch[i]? = some p ∧ sub[i]? = some s ∧ (children sh ch sub)[i]? = some c ∧
+      c = fastChild sh p s ∧ c >>> sh = p ∧ p ∈ vp := by
+  have hok : fastOk n vp ch sub sh = true := by
+    cases hc : fastOk n vp ch sub sh with
+    | true => rfl
+    | false => exact absurd (fastAnswer_of_not_ok hc) h
+  exact ⟨fastAnswer_of_ok hok, children_length hok, fun i hi => children_parent hok i hi⟩
+
+/-- a child lies under the pixel chosen for it IFF the offset is in range … -/
+theorem fast_in_parent_iff (s p sub : Nat) : fastChild s p sub >>> s = p ↔ sub < 2 ^ s :=
+  fastChild_parent_iff s p sub
+
+/-- **… and the model exposes an out-of-range offset instead of hiding it** (the seeded change
+    C20c drew `sub` from `[0, 2^shift]`): as soon as ONE recorded offset reaches `2^shift` the
+    answer is the refusal, which differs from every answer `len=…` a real run can produce, so
+    the comparison fails; and the child the real code computed lies under a LATER pixel than
+    the one chosen — possibly not a valid one -/
+theorem rand_fast_exposes (n : Nat) (vp ch sub : List Nat) (sh : Nat) (s : Nat) (hs : s ∈ sub)
+    (hbig : 2 ^ sh ≤ s) :
+    fastAnswer n vp ch sub sh = "draws-out-of-range" ∧
+    (∀ (k : Nat) (r : String), fastAnswer n vp ch sub sh ≠ s!"len={k}{r}") ∧
+    ∀ p, p < fastChild sh p s >>> sh := by
+  have h : fastAnswer n vp ch sub sh = "draws-out-of-range" := by
+    rw [rand_fast_refuses_iff]
+    rintro ⟨_, h2, _⟩
+    exact absurd (h2 s hs) (Nat.not_lt.2 hbig)
+  refine ⟨h, fun k r => ?_, fun p => fastChild_parent_gt sh p s hbig⟩
+  rw [h]
+  exact refusal_ne_len k r
+
+/-- **the link to a map object** (conditional on the trusted `vp=` token): if `vp` lists the
+    valid pixels of `m`, every printed child lies under a pixel that is valid in `m` -/
+theorem rand_fast_valid_in_map (m : MapObj) (n : Nat) (vp ch sub : List Nat) (sh : Nat)
+    (hvp : VpOf m vp) (h : fastAnswer n vp ch sub sh ≠ "draws-out-of-range") :
+    ∀ i, i < n → ∃ c, (children sh ch sub)[i]? = some c ∧ c >>> sh < m.npix ∧
+      m.vc.valid (m.abs (c >>> sh)) = true := by
+  intro i hi
+  obtain ⟨p, s, c, _, _, hc, _, hpar, hp⟩ := (rand_fast_children n vp ch sub sh h).2.2 i hi
+  have := (hvp p).1 hp
+  rw [← hpar] at this
+  exact ⟨c, hc, this.1, this.2⟩
+
+/-- … and `VpOf` holds of the valid-pixel listing of every well-formed, well-typed map -/
+theorem vp_of_validNat {m : MapObj} (hw : m.WF) (hk : m.KindOk) :
+    VpOf m (validNat m.c m.vc m.st) := vpOf_validNat hw hk
+
+/-- **every sub-pixel of every listed valid pixel is reachable**: it is the (single) child of
+    the accepted answer to some admissible draw -/
+theorem rand_fast_onto (vp : List Nat) (sh p c : Nat) (hp : p ∈ vp) (hc : c >>> sh = p) :
+    ∃ s, fastAnswer 1 vp [p] [s] sh = s!"len={1} valid=1 det=1 starved=0 child={showNats [c]}" := by
+  obtain ⟨s, hok, hch⟩ := children_onto vp sh p c hp hc
+  exact ⟨s, by rw [fastAnswer_of_ok hok, hch]⟩
+
+
+/-! ### (2) rejection sampler -/
+
+/-- the answer for the rejection sampler, from the parsed fields; anything unparsable is `bad-op` -/
+theorem rand_uniform_answer (a : Args) (hg : (a.getD "gen" "uniform" == "fast") = false)
+    {ivs rot : List (Int × Int)} {T thr : Int}
+    (h1 : parseIvs (a.getD "ivs" "_") = some ivs) (h2 : parseIvs (a.getD "rot" "_") = some rot)
+    (h3 : (a.get? "T").bind String.toInt? = some T) (h4 : (a.get? "thr").bind String.toInt? = some thr) :
+    randAnswer a = uniformAnswer ((a.nat? "n").getD 0) (parseBatches (a.getD "batches" "")) ivs rot
+      T thr (a.flag "nowin") := by
+  unfold randAnswer
+  simp only [hg, Bool.false_eq_true, if_false, h1, h2, h3, h4]
+
+/-- the shape of that answer: `len` echoes `n`; `win` depends on the geometry fields only,
+    `sel` on `n` and the candidate stream only -/
+theorem rand_uniform_shape (n : Nat) (batches : List (List (Nat × Bool))) (ivs rot : List (Int × Int))
+    (T thr : Int) (nowin : Bool) :
+    uniformAnswer n batches ivs rot T thr nowin =
+      s!"len={n} valid=1 det=1 starved=0 win={winToken nowin T thr ivs rot} sel={selToken n batches}" :=
+  rfl
+
+/-- **the `sel=` token is the first `n` valid candidates in stream order** when the recorded
+    stream holds `n` valid candidates, and `none` otherwise.  Candidates are labelled by their
+    position in the whole stream (`parseBatches_labels`) -/
+theorem rand_sel (n : Nat) (batches : List (List (Nat × Bool))) :
+    selToken n batches =
+      if n ≤ nValidCand batches then showNats (firstValid n batches) else "none" :=
+  selToken_eq n batches
+
+/-- **exactly `n` points, all valid, the first ones**: when the stream holds `n` valid
+    candidates the selection has `n` entries; each is the position of a `1` of the `batches=`
+    token (the candidate was drawn and `get_values_pos` said valid — trusted recording); it is
+    `firstValid`: the valid candidates in draw order, cut after the `n`-th.  The real loop
+    (`valid[0:n_valid]` appended batch after batch) must return exactly these -/
+theorem rand_sel_spec (s : String) (n : Nat) (h : n ≤ nValidCand (parseBatches s)) :
+    rejectionLoop n (parseBatches s) = some (firstValid n (parseBatches s)) ∧
+    (firstValid n (parseBatches s)).length = n ∧
+    (∀ k ∈ firstValid n (parseBatches s), (streamChars (batchGroups s))[k]? = some '1') ∧
+    (parseBatches s).flatten.map (·.1) = List.range (streamChars (batchGroups s)).length := by
+  refine ⟨?_, firstValid_length h, fun k hk => firstValid_stream hk, parseBatches_labels s⟩
+  rw [Randoms.rejectionLoop_eq]
+  unfold nValidCand at h
+  rw [if_pos h]
+  rfl
+
+/-- `len = n` is reached iff the stream contains `n` valid candidates: the loop of the model
+    returns a selection exactly then -/
+theorem rand_sel_some_iff (n : Nat) (batches : List (List (Nat × Bool))) :
+    (rejectionLoop n batches).isSome = true ↔ n ≤ nValidCand batches := by
+  rw [Randoms.rejectionLoop_eq]
+  unfold nValidCand
+  split
+  · rename_i h; exact ⟨fun _ => h, fun _ => rfl⟩
+  · rename_i h; exact ⟨(fun hc => by cases hc), fun hc => absurd hc h⟩
+
+/-- **divergence**: a stream without `n` valid candidates makes the model print `sel=none`
+    (with `len=n` still echoed).  The REAL loop does not stop in that situation — it keeps
+    drawing; the harness cuts it with a watchdog, reports the observation `hang` and sends a
+    line with an EMPTY `batches=` token; for `n > 0` the model answers `… sel=none`, which is
+    not `hang`, so the case is reported, never silently accepted -/
+theorem rand_sel_diverges (n : Nat) (batches : List (List (Nat × Bool))) (h : nValidCand batches < n) :
+    selToken n batches = "none" := by
+  rw [rand_sel, if_neg (Nat.not_le.2 h)]
+
+theorem rand_hang_reported (n : Nat) (batches : List (List (Nat × Bool))) (ivs rot : List (Int × Int))
+    (T thr : Int) (nowin : Bool) : uniformAnswer n batches ivs rot T thr nowin ≠ "hang" := by
+  intro h
+  have := congrArg String.toList h
+  simp [uniformAnswer, toString] at this
+
+/-- the selection does not depend on how the stream is cut into batches, nor on anything
+    drawn after the `n`-th valid candidate -/
+theorem rand_sel_stream_only (n : Nat) (b₁ b₂ : List (List (Nat × Bool)))
+    (h : b₁.flatten = b₂.flatten) : selToken n b₁ = selToken n b₂ := by
+  rw [rand_sel, rand_sel, firstValid_flatten n b₁ b₂ h]
+  unfold nValidCand; rw [h]
+
+/-! ### (3) window -/
+
+/-- **the `win=` token**: unless the line says `nowin=1` (no draw was made: `n = 0`), the two
+    bounds of the window `chooseWindow` selects — the hull (or one full turn) of the plain
+    interval list, or of the rotated one -/
+theorem rand_win_token (T thr : Int) (ivs rot : List (Int × Int)) :
+    winToken true T thr ivs rot = "na" ∧
+    winToken false T thr ivs rot =
+      s!"{(chooseWindow T thr ivs rot).2.1}:{(chooseWindow T thr ivs rot).2.2}" ∧
+    (chooseWindow T thr ivs rot).2 =
+      raWindow T (if (chooseWindow T thr ivs rot).1 then rot else ivs) :=
+  ⟨rfl, rfl, chooseWindow_eq T thr ivs rot⟩
+
+/-- the rotated window is chosen iff it is narrower than the plain one by more than `thr` -/
+theorem rand_window_rotated_iff (T thr : Int) (ivs rot : List (Int × Int)) :
+    (chooseWindow T thr ivs rot).1 = true ↔
+      (raWindow T rot).2 - (raWindow T rot).1 < ((raWindow T ivs).2 - (raWindow T ivs).1) - thr :=
+  chooseWindow_rotated_iff T thr ivs rot
+
+/-- **the printed window covers every interval of the list it was built from, modulo one
+    turn** (`window_covers` lifted to the choice) -/
+theorem rand_window_covers (T thr : Int) (hT : 0 < T) (ivs rot : List (Int × Int)) (iv : Int × Int)
+    (hiv : iv ∈ (if (chooseWindow T thr ivs rot).1 then rot else ivs))
+    (x : Int) (hx : iv.1 ≤ x ∧ x ≤ iv.2) :
+    ∃ y, (chooseWindow T thr ivs rot).2.1 ≤ y ∧ y ≤ (chooseWindow T thr ivs rot).2.2 ∧
+      (y - x) % T = 0 := by
+  rw [chooseWindow_eq]
+  exact window_covers T hT _ iv hiv x hx
+
+/-- **no part of the footprint is starved by the window, rotated or not**: if the rotated list
+    is the plain list moved by the half turn `h` modulo whole turns (what `cov_phi + π`,
+    reduced into `[0, 2π]`, does — trusted floating-point geometry), then every point `x` of
+    every PLAIN interval is congruent modulo one turn to `y - h` (rotated choice: the real code
+    subtracts 180° from what it draws) resp. to `y` (plain choice) for a point `y` of the
+    printed window -/
+theorem rand_window_covers_footprint (T thr h : Int) (hT : 0 < T) (ivs rot : List (Int × Int))
+    (hrot : ∀ iv ∈ ivs, ∃ iv' ∈ rot, ∃ k : Int, iv'.1 = iv.1 + h + k * T ∧ iv'.2 = iv.2 + h + k * T)
+    (iv : Int × Int) (hiv : iv ∈ ivs) (x : Int) (hx : iv.1 ≤ x ∧ x ≤ iv.2) :
+    ∃ y, (chooseWindow T thr ivs rot).2.1 ≤ y ∧ y ≤ (chooseWindow T thr ivs rot).2.2 ∧
+      (y - (if (chooseWindow T thr ivs rot).1 then h else 0) - x) % T = 0 := by
+  cases hc : (chooseWindow T thr ivs rot).1 with
+  | false =>
+    obtain ⟨y, h1, h2, h3⟩ := rand_window_covers T thr hT ivs rot iv (by rw [hc]; exact hiv) x hx
+    exact ⟨y, h1, h2, by simpa using h3⟩
+  | true =>
+    obtain ⟨iv', hiv', k, e1, e2⟩ := hrot iv hiv
+    obtain ⟨y, h1, h2, h3⟩ := rand_window_covers T thr hT ivs rot iv' (by rw [hc]; exact hiv')
+      (x + h + k * T) ⟨by omega, by omega⟩
+    refine ⟨y, h1, h2, ?_⟩
+    simp only [if_true]
+    have e : y - h - x = (y - (x + h + k * T)) + k * T := by omega
+    rw [e, Int.add_mul_emod_self_right]
+    exact h3
+
+/-- the printed window is never wider than one turn (non-empty, well-formed interval lists) -/
+theorem rand_window_width (T thr : Int) (hT : 0 < T) (ivs rot : List (Int × Int))
+    (hne : ivs ≠ []) (hner : rot ≠ []) (hwf : ∀ iv ∈ ivs, iv.1 ≤ iv.2) (hwfr : ∀ iv ∈ rot, iv.1 ≤ iv.2) :
+    0 ≤ (chooseWindow T thr ivs rot).2.2 - (chooseWindow T thr ivs rot).2.1 ∧
+    (chooseWindow T thr ivs rot).2.2 - (chooseWindow T thr ivs rot).2.1 ≤ T := by
+  rw [chooseWindow_eq]
+  cases (chooseWindow T thr ivs rot).1 with
+  | true => exact window_width T hT rot hner hwfr
+  | false => exact window_width T hT ivs hne hwf
+
+/-- **the pre-fix window, on the tokens**: for a footprint straddling `ra = 0` (interval
+    `[-10, 10]` of a turn of 360, rotated copy `[170, 190]`, threshold 0) the model prints the
+    window `-10:10` (plain choice), whereas the pre-fix code sampled the clipped window
+    `0:10` — a different `win=` token, so the comparison fails — and that window starves the
+    western half (`Witness.window_clip_starves`) -/
+theorem Witness.win_token_clip :
+    chooseWindow 360 0 [(-10, 10)] [(170, 190)] = (false, (-10, 10)) ∧
+    raWindowClipped 360 [(-10, 10)] = (0, 10) ∧
+    raWindowClipped 360 [(-10, 10)] ≠ (chooseWindow 360 0 [(-10, 10)] [(170, 190)]).2 := by
+  decide
+
+/-! ### non-vacuity: whole protocol lines (evaluated) -/
+
+/-! an accepted fast line; the same line with one offset equal to `2^shift` (seeded change C20c);
+    a chosen pixel that is not listed -/
+#guard (stepArgs {} "rand" (parseArgs ["m", "gen=fast", "n=3", "shift=2", "vp=5,9", "choice=9,5,9", "sub=0,3,1"])).2
+  == "len=3 valid=1 det=1 starved=0 child=36,23,37"
+#guard (stepArgs {} "rand" (parseArgs ["m", "gen=fast", "n=3", "shift=2", "vp=5,9", "choice=9,5,9", "sub=0,4,1"])).2
+  == "draws-out-of-range"
+#guard (stepArgs {} "rand" (parseArgs ["m", "gen=fast", "n=1", "shift=2", "vp=5,9", "choice=7", "sub=0"])).2
+  == "draws-out-of-range"
+#guard fastChild 2 5 4 >>> 2 == 6     -- the out-of-range child lies under pixel 6, not 5
+
+/-! a rejection-sampler line: two batches, candidates 1, 3, 4, 5 valid, `n = 3`; the same stream
+    cut differently; a stream with too few valid candidates; the line the harness sends after a
+    watchdog cut; `nowin` -/
+#guard (stepArgs {} "rand" (parseArgs ["m", "gen=uniform", "n=3", "batches=0101;110", "T=360", "thr=0",
+    "ivs=-10:10", "rot=170:190"])).2 == "len=3 valid=1 det=1 starved=0 win=-10:10 sel=1,3,4"
+#guard (stepArgs {} "rand" (parseArgs ["m", "n=3", "batches=01;01110", "T=360", "thr=0",
+    "ivs=-10:10", "rot=170:190"])).2 == "len=3 valid=1 det=1 starved=0 win=-10:10 sel=1,3,4"
+#guard (stepArgs {} "rand" (parseArgs ["m", "n=5", "batches=0101;110", "T=360", "thr=0",
+    "ivs=-10:10", "rot=170:190"])).2 == "len=5 valid=1 det=1 starved=0 win=-10:10 sel=none"
+#guard (stepArgs {} "rand" (parseArgs ["m", "gen=uniform", "n=4", "batches=", "T=1", "thr=0", "ivs=0:1",
+    "rot=0:1"])).2 == "len=4 valid=1 det=1 starved=0 win=0:1 sel=none"
+#guard (stepArgs {} "rand" (parseArgs ["m", "n=0", "batches=", "T=360", "thr=0", "ivs=-10:10", "rot=170:190",
+    "nowin=1"])).2 == "len=0 valid=1 det=1 starved=0 win=na sel=_"
+#guard parseBatches "0101;110" == [[(0, false), (1, true), (2, false), (3, true)], [(4, true), (5, true), (6, false)]]
+#guard parseBatches "" == []
+
+/-! the rotated window is chosen for a footprint opposite to `ra = 0` seen through the wrap:
+    plain intervals `[350, 370]` and `[-10, 10]` (hull wider than… one interval each side),
+    rotated `[170, 190]` twice -/
+#guard (stepArgs {} "rand" (parseArgs ["m", "n=0", "batches=", "T=360", "thr=36", "ivs=-10:10,340:370",
+    "rot=170:190,160:190"])).2 == "len=0 valid=1 det=1 starved=0 win=160:190 sel=_"
+example : chooseWindow 360 36 [(-10, 10), (340, 370)] [(170, 190), (160, 190)] = (true, (160, 190)) := by
+  decide
+
+end driver
 end C20
 end HS
